@@ -43,11 +43,23 @@ def replay(w):
         P, K, n, labels = int(nt['P']), int(nt['K']), int(nt['n']), [int(x) for x in nt['labels']]
         biased = bool(nt.get('biased', True))
         data = _data(w, P, n)
-        st = _state(n, labels, data, K, biased)
+        st = _state(n, labels, data, K, biased, m=int(nt.get('m', 1)))
+        if ob == 'stats_after_repopulation':
+            # as in the harness: a real repopulation first (any draw), then the statistics of the NEW membership
+            for k, cl in enumerate(st.clusters):
+                cl.computed_covariance = np.array([float(k)])
+            try:
+                st = cm.repopulate_empty_clusters(st)
+            except RuntimeError as exc:
+                return {'reproduced': False, 'signature': None, 'observed': {'no_donor': repr(exc)}}
+            labels = [int(x) for x in st.point_labels]
         try:
             new = cm.update_all_cluster_statistics(st, data)
         except Exception as exc:
             return {'reproduced': True, 'signature': 'statistics-step-raises', 'observed': {'raised': repr(exc)}}
+        if any(cl.stacked_data_mean is None or cl.empirical_covariance is None for cl in new.clusters):
+            return {'reproduced': True, 'signature': 'cluster-statistics-not-computed',
+                    'observed': {'labels': labels, 'sizes': [labels.count(k) for k in range(K)]}}
         sig, obs = _check(new, labels, data, K, n, biased)
         return {'reproduced': sig is not None, 'signature': sig, 'observed': obs}
     if nt.get('kind') == 'round_flow':
